@@ -1,177 +1,96 @@
 /-
-  Proofs/MixtureDMJointCircuit.lean — the repair proposal for finding F2, whole circuits (NOT a model of the code as it stands).
+  Proofs/MixtureDMJointCircuit.lean — clause (c) of C06 for circuits with measurements, for `StabilizerCompiler.compile` with
+  the repaired (joint) `MixedStabilizer.apply_measurement` (`compileStab` of Model/Noise.lean; the per-branch measurement of
+  graphiq before the repair of finding F2 is `compileStabOld`).
 
-  `compileStabJ` is `compileStab` with `MixedStabilizer.apply_measurement` replaced by the joint measurement
-  `measureJointNorm` of Proofs/MixtureDMJoint.lean (as in the patch of handoff/deep-c06.md: one outcome for the whole
-  mixture; the compiler and `apply_conditioned_gate` unchanged).  `dm_equals_mixture_repaired`: for every circuit of
-  one-qubit gates, CNOT / CZ with additive noise (depolarizing probabilities in `[0,1]`, loss rates `≤ 1`, Pauli errors), and
-  noiseless `MeasurementZ` / `ClassicalCNOT` / `ClassicalCZ` / `MeasurementCNOTandReset` — **no condition on the measurement
-  outcomes, no weight threshold** — if the repaired stabilizer compile returns `s` and the density-matrix compile returns a
-  matrix `ρ`, then `ρ = Σ_k w_k ρ(T_k)` of `s.mix` entry by entry and the classical registers agree.  Every number of qubits.
+  `dm_equals_mixture_repaired`: for every circuit of one-qubit gates, CNOT / CZ with additive noise (depolarizing probabilities
+  in `[0,1]`, loss rates `≤ 1`, Pauli errors), and noiseless `MeasurementZ` / `ClassicalCNOT` / `ClassicalCZ` /
+  `MeasurementCNOTandReset` — **no condition on the measurement outcomes, no weight threshold** — if the stabilizer compile
+  returns `s` and the density-matrix compile returns a matrix `ρ` (not NaN), then `ρ = Σ_k w_k ρ(T_k)` of `s.mix` entry by
+  entry and the classical registers agree.  Every number of qubits.
 -/
 import GraphiqModel.Proofs.MixtureDMJoint
+import GraphiqModel.Proofs.MixtureDMTotal
 namespace Graphiq
 namespace MixDM
 open Matrix Hilbert Noise DM PRow
 
-/-! ### the repaired compiler -/
+/-! ### the joint measurement: non-emptiness, outcome list -/
 
-def stabMeasZJ (n q1 c : Nat) (det : Bool) (s : StabSt) : Except Err StabSt :=
-  if q1 < n then
-    let r := measureJointNorm q1 det s.mix
-    .ok { s with mix := r.1, creg := setRec s.creg c (if r.2 then 1 else 0) }
-  else .error .assertion
-
-def stabClassicalJ (n q1 q2 c : Nat) (det : Bool) (f : Tab → Tab) (reset : Bool) (s : StabSt) : Except Err StabSt :=
-  if q1 < n ∧ q2 < n then
-    let r := measureJointNorm q1 det s.mix
-    let m2 := if r.2 then Mix.mapTab f r.1 else r.1
-    let m3 := if reset then Mix.mapTab (fun t => t.resetZ q1 false det) m2 else m2
-    .ok { s with mix := m3, creg := setRec s.creg c (if r.2 then 1 else 0) }
-  else .error .assertion
-
-def stabGateJ (np n : Nat) (det : Bool) (op : COp) (s : StabSt) : Except Err StabSt :=
-  match op.kind with
-  | .measZ => stabMeasZJ n (qIndex np op.r1 op.t1) op.c det s
-  | .ccnot => stabClassicalJ n (qIndex np op.r1 op.t1) (qIndex np op.r2 op.t2) op.c det (·.xGate (qIndex np op.r2 op.t2)) false s
-  | .ccz => stabClassicalJ n (qIndex np op.r1 op.t1) (qIndex np op.r2 op.t2) op.c det (·.zGate (qIndex np op.r2 op.t2)) false s
-  | .mcr => stabClassicalJ n (qIndex np op.r1 op.t1) (qIndex np op.r2 op.t2) op.c det (·.xGate (qIndex np op.r2 op.t2)) true s
-  | _ => stabGate np n det op s
-
-def stabActJ (np n : Nat) (det : Bool) (ops : Array COp) (s : StabSt) : Act → Except Err StabSt
-  | .gate k => stabGateJ np n det (ops.getD k { kind := .identity }) s
-  | a => stabAct np n det ops s a
-
-def runStabActsJ (np n : Nat) (det : Bool) (arr : Array COp) : List Act → StabSt → Except Err StabSt
-  | [], s => .ok s
-  | a :: as, s =>
-    match stabActJ np n det arr s a with
-    | .ok s' => runStabActsJ np n det arr as s'
-    | .error e => .error e
-
-def stabGoJ (noiseSim : Bool) (np n : Nat) (det : Bool) (arr : Array COp) : List COp → Nat → StabSt → Except Err StabSt
-  | [], _, s => .ok s
-  | op :: rest, k, s =>
-    if op.kind == .param then .error .runtime
-    else
-      match placeOp noiseSim .stab np op k with
-      | .error e => .error e
-      | .ok acts =>
-        match runStabActsJ np n det arr acts s with
-        | .ok s' => stabGoJ noiseSim np n det arr rest (k + 1) s'
-        | .error e => .error e
-
-/-- `StabilizerCompiler.compile` with the repaired `MixedStabilizer.apply_measurement` -/
-def compileStabJ (noiseSim : Bool) (ne np nc : Nat) (det : Bool) (ops : List COp) : Except Err StabSt :=
-  stabGoJ noiseSim np (ne + np) det ops.toArray ops 0 { mix := [(1, (Tab.ket0 (ne + np)).norm)], creg := List.replicate nc 0 }
-
-theorem stabGateJ_mfree (np n : Nat) (det : Bool) (op : COp) (hf : MFree op) (s : StabSt) :
-    stabGateJ np n det op s = stabGate np n det op s := by
-  unfold stabGateJ
-  cases hk : op.kind <;> first | rfl | (rcases hf with hf | hf <;> simp [hk, Kind.isOneQubit, Kind.isCtrlPair] at hf)
-
-/-! ### the joint measurement: invariants -/
-
-theorem measureJoint_fixed (n q : Nat) (hq : q < n) (o : Bool) (m : Mixture) (hg : MixGood n m) :
-    Fixed n q o (measureJoint q o m) := by
-  intro y hy
-  unfold measureJoint at hy
-  rw [List.mem_filterMap] at hy
-  obtain ⟨⟨w, t⟩, hx, hj⟩ := hy
-  obtain ⟨hn, hv, hr⟩ := hg (w, t) hx
-  unfold jointBranch at hj
-  cases hp : t.pivot q with
-  | some p =>
-    simp only [hp] at hj
-    injection hj with hj; subst hj
-    obtain ⟨b1, _, _⟩ := branch_random n t hn hv hr q hq o p hp
-    show projZ n q o * tabRho n (t.zMeasure q o).1.norm * projZ n q o = tabRho n (t.zMeasure q o).1.norm
-    rw [b1, Matrix.mul_smul, Matrix.smul_mul]
-    congr 1
-    calc projZ n q o * (projZ n q o * tabRho n t * projZ n q o) * projZ n q o
-        = (projZ n q o * projZ n q o) * tabRho n t * (projZ n q o * projZ n q o) := by simp only [Matrix.mul_assoc]
-      _ = projZ n q o * tabRho n t * projZ n q o := by rw [projZ_idem]
-  | none =>
-    simp only [hp] at hj
-    split at hj
-    · rename_i ho
-      injection hj with hj; subst hj
-      obtain ⟨b1, b2, _, _⟩ := branch_det n t hn hv hr q hq o hp
-      rw [ho] at b2
-      show projZ n q o * tabRho n (t.zMeasure q o).1.norm * projZ n q o = tabRho n (t.zMeasure q o).1.norm
-      rw [b1, b2]
-    · cases hj
-
-theorem photonLoss_fixed (n q : Nat) (o : Bool) (r : Rat) (m : Mixture) (h : Fixed n q o m) : Fixed n q o (Mix.photonLoss r m) := by
-  intro x hx
-  simp only [Mix.photonLoss, List.mem_map] at hx
-  obtain ⟨⟨p, t⟩, hy, rfl⟩ := hx
-  exact h (p, t) hy
-
-theorem measureJointNorm_fixed (n q : Nat) (hq : q < n) (det : Bool) (m : Mixture) (hg : MixGood n m) :
-    Fixed n q (measureJointNorm q det m).2 (measureJointNorm q det m).1 := by
-  unfold measureJointNorm
+theorem measure_ne_nil (q : Nat) (det : Bool) (m : Mixture) (h : m ≠ []) : (Mix.measure q det m).1 ≠ [] := by
+  unfold Mix.measure
   simp only
-  exact photonLoss_fixed n q _ _ _ (measureJoint_fixed n q hq _ m hg)
+  generalize (if det = true then !isclose0 (Mix.total (Mix.measureJoint q true m))
+    else isclose0 (Mix.total (Mix.measureJoint q false m))) = oc
+  by_cases hw : 0 < (if oc = true then Mix.total (Mix.measureJoint q true m) else Mix.total (Mix.measureJoint q false m))
+  · rw [if_pos hw]
+    have hne : Mix.measureJoint q oc m ≠ [] := by
+      intro e
+      cases oc <;> simp only [Bool.false_eq_true, if_false, if_true] at hw <;> rw [e] at hw <;> simp [Mix.total_nil] at hw
+    intro e
+    exact hne (List.map_eq_nil_iff.1 e)
+  · rw [if_neg hw]
+    intro e
+    exact h (List.map_eq_nil_iff.1 e)
 
-theorem measureJointNorm_nonneg (n q : Nat) (hq : q < n) (det : Bool) (m : Mixture) (hg : MixGood n m) (hnn : MixNonneg m) :
-    MixNonneg (measureJointNorm q det m).1 := by
-  unfold measureJointNorm
-  simp only
-  have h0 := total_nonneg _ ((measureJoint_spec n q hq false m hg).2.2.2 hnn)
-  have h1 := total_nonneg _ ((measureJoint_spec n q hq true m hg).2.2.2 hnn)
-  generalize Mix.total (measureJoint q false m) = q0 at *
-  generalize Mix.total (measureJoint q true m) = q1 at *
-  generalize (if det = true then !isclose0 q1 else isclose0 q0) = oc
-  have hj := (measureJoint_spec n q hq oc m hg).2.2.2 hnn
-  have hnorm : 0 ≤ (if 0 < q0 + q1 then (if oc = true then q1 else q0) / (q0 + q1) else 1 : Rat) := by
-    split
-    · rename_i hpos
-      exact div_nonneg (by cases oc <;> simp [h0, h1]) (le_of_lt hpos)
-    · norm_num
-  intro x hx
-  simp only [Mix.photonLoss, List.mem_map] at hx
-  obtain ⟨⟨p, t⟩, hy, rfl⟩ := hx
-  have hp := hj (p, t) hy
-  show 0 ≤ (1 - (1 - 1 / _)) * p
-  have : (1 - (1 - 1 / (if 0 < q0 + q1 then (if oc = true then q1 else q0) / (q0 + q1) else 1 : Rat)))
-      = 1 / (if 0 < q0 + q1 then (if oc = true then q1 else q0) / (q0 + q1) else 1 : Rat) := by ring
-  rw [this]
-  exact mul_nonneg (by positivity) hp
+theorem headD_replicate (k : Nat) (o : Bool) (hk : k ≠ 0) : (List.replicate k o).headD false = o := by
+  cases k with
+  | zero => exact absurd rfl hk
+  | succ j => rfl
+
+/-- with the outcome list `[outcome] * len`, `apply_conditioned_gate` applies the gate to all branches or to none -/
+theorem conditioned_measure (f : Tab → Tab) (q : Nat) (det : Bool) (m : Mixture) :
+    Mix.conditioned f (Mix.measure q det m).2 (Mix.measure q det m).1
+      = if measOutcome q det m then Mix.mapTab f (Mix.measure q det m).1 else (Mix.measure q det m).1 := by
+  rw [measure_outcomes]
+  exact conditioned_all f _ _ _ (List.length_replicate ..) (fun x hx => List.eq_of_mem_replicate hx)
+
+theorem head_measure (q : Nat) (det : Bool) (m : Mixture) (h : m ≠ []) :
+    (Mix.measure q det m).2.headD false = measOutcome q det m := by
+  rw [measure_outcomes]
+  exact headD_replicate _ _ (fun e => measure_ne_nil q det m h (List.eq_nil_of_length_eq_zero e))
 
 /-! ### the invariant and the measurement gates -/
 
-/-- the lockstep invariant of Proofs/MixtureDMLockstep plus non-negative weights -/
+/-- the lockstep invariant of Proofs/MixtureDMLockstep plus non-negative weights and a non-empty mixture -/
 structure InvJ (n : Nat) (s : StabSt) (d : DmSt) : Prop where
   inv : Inv n s d
   nonneg : MixNonneg s.mix
+  ne : s.mix ≠ []
 
-/-- `compile_one_gate` for the four operations with a measurement, repaired stabilizer side vs density-matrix side;
-    the density-matrix side must return a matrix (not the NaN of a zero conditional probability) -/
+theorem resetH_zero (n q : Nat) : resetH n q (0 : HMat n) = 0 := by
+  unfold resetH; simp [conjH_zero]
+
+/-- `compile_one_gate` for the four operations with a measurement, stabilizer side (repaired measurement) vs density-matrix
+    side; the density-matrix side must return a matrix (not the NaN of a zero conditional probability) -/
 theorem measGateJ_lockstep (np n : Nat) (det : Bool) (op : COp) (hk : MeasAny op.kind) (hw : OpWF n np op)
     (hne : op.kind = .mcr → qIndex np op.r1 op.t1 ≠ qIndex np op.r2 op.t2)
     (s s1 : StabSt) (d d1 : DmSt) (hI : InvJ n s d)
-    (hs : stabGateJ np n det op s = .ok s1) (hd : dmGate np n det op d = .ok d1) (hsome : d1.ρ ≠ none) : InvJ n s1 d1 := by
-  obtain ⟨⟨⟨ρ, hρs, hρn, hρ⟩, hg, hcr⟩, hnn⟩ := hI
+    (hs : stabGate np n det op s = .ok s1) (hd : dmGate np n det op d = .ok d1) (hsome : d1.ρ ≠ none) : InvJ n s1 d1 := by
+  obtain ⟨⟨⟨ρ, hρs, hρn, hρ⟩, hg, hcr⟩, hnn, hnemp⟩ := hI
   have hq1 := hw.1
   unfold dmGate at hd
   simp only [hρs] at hd
-  unfold stabGateJ at hs
-  -- the measurement itself
+  unfold stabGate at hs
+  simp only at hs
+  -- facts about the measured mixture
+  have hgm := measure_good_new n (qIndex np op.r1 op.t1) hq1 det s.mix hg
+  have hnnJ := measure_nonneg (qIndex np op.r1 op.t1) det s.mix hnn
+  have hneJ := measure_ne_nil (qIndex np op.r1 op.t1) det s.mix hnemp
+  have hhead := head_measure (qIndex np op.r1 op.t1) det s.mix hnemp
   have meas : ∀ (p0 p1 : Mat), projectorsZ n (qIndex np op.r1 op.t1) = .ok (p0, p1) →
       ∀ (ρ' : Mat) (o : Bool), applyMeasurement ρ p0 p1 det = .ok (some ρ', o) →
-      o = (measureJointNorm (qIndex np op.r1 op.t1) det s.mix).2 ∧
-      toC n ρ' = mixRho n (measureJointNorm (qIndex np op.r1 op.t1) det s.mix).1 ∧ ρ'.n = 2 ^ n ∧
-      MixGood n (measureJointNorm (qIndex np op.r1 op.t1) det s.mix).1 :=
+      o = measOutcome (qIndex np op.r1 op.t1) det s.mix ∧
+      toC n ρ' = mixRho n (Mix.measure (qIndex np op.r1 op.t1) det s.mix).1 ∧ ρ'.n = 2 ^ n ∧
+      (Fixed n (qIndex np op.r1 op.t1) o (Mix.measure (qIndex np op.r1 op.t1) det s.mix).1 ∨
+        ZeroW (Mix.measure (qIndex np op.r1 op.t1) det s.mix).1) :=
     fun p0 p1 hp ρ' o hm => joint_measurement_is_dm_measurement n _ hq1 det s.mix ρ p0 p1 hg hnn hρn hρ hp ρ' o hm
-  have hnnJ := measureJointNorm_nonneg n _ hq1 det s.mix hg hnn
-  have hfxJ := measureJointNorm_fixed n _ hq1 det s.mix hg
   -- classically controlled Pauli (and optional reset)
   have classical : ∀ (gq : Gate) (g : Mat) (reset : Bool), g.n = 2 → (qIndex np op.r2 op.t2 < n) →
       (reset = true → qIndex np op.r1 op.t1 ≠ qIndex np op.r2 op.t2 ∧ gq = .X (qIndex np op.r2 op.t2)) →
       gq = .X (qIndex np op.r2 op.t2) ∨ gq = .Z (qIndex np op.r2 op.t2) →
       toC n (getOneQubitGate n (qIndex np op.r2 op.t2) g) = gateMat n gq →
-      stabClassicalJ n (qIndex np op.r1 op.t1) (qIndex np op.r2 op.t2) op.c det (fun t => t.map gq.act) reset s = .ok s1 →
+      stabClassical n (qIndex np op.r1 op.t1) (qIndex np op.r2 op.t2) op.c det (fun t => t.map gq.act) reset s = .ok s1 →
       (match projectorsZ n (qIndex np op.r1 op.t1) with
         | .error e => (Except.error e : Except Err DmSt)
         | .ok (p0, p1) =>
@@ -187,7 +106,7 @@ theorem measGateJ_lockstep (np n : Nat) (det : Bool) (op : COp) (hk : MeasAny op
       InvJ n s1 d1 := by
     intro gq g reset hgn hq2 hner hgq hU hs' hm
     have hgw : gq.WF n := by rcases hgq with e | e <;> subst e <;> exact hq2
-    unfold stabClassicalJ at hs'
+    unfold stabClassical at hs'
     rw [if_pos ⟨hq1, hq2⟩] at hs'
     injection hs' with hs'; subst hs'
     cases hp : projectorsZ n (qIndex np op.r1 op.t1) with
@@ -209,8 +128,8 @@ theorem measGateJ_lockstep (np n : Nat) (det : Bool) (op : COp) (hk : MeasAny op
         | some ρm =>
           rw [ha] at hm
           simp only at hm
-          obtain ⟨ho, hc, hn', hgm⟩ := meas p0 p1 hp ρm o ha
-          rw [← ho] at hfxJ
+          obtain ⟨ho, hc, hn', hfz⟩ := meas p0 p1 hp ρm o ha
+          simp only [conditioned_measure, hhead]
           rw [← ho]
           have hh : (toC n ρm)ᴴ = toC n ρm := by rw [hc]; exact mixRho_herm n _ hgm
           -- after the conditional Pauli
@@ -218,22 +137,24 @@ theorem measGateJ_lockstep (np n : Nat) (det : Bool) (op : COp) (hk : MeasAny op
               (if o then applyUnitary ρm ⟨1, getOneQubitGate n (qIndex np op.r2 op.t2) g⟩ else .ok ρm : Except Err Mat) = .ok ρ2 →
               ρ2.n = 2 ^ n ∧
               toC n ρ2 = mixRho n (if o = true then Mix.mapTab (fun t => t.map gq.act)
-                (measureJointNorm (qIndex np op.r1 op.t1) det s.mix).1 else (measureJointNorm (qIndex np op.r1 op.t1) det s.mix).1) ∧
+                (Mix.measure (qIndex np op.r1 op.t1) det s.mix).1 else (Mix.measure (qIndex np op.r1 op.t1) det s.mix).1) ∧
               MixGood n (if o = true then Mix.mapTab (fun t => t.map gq.act)
-                (measureJointNorm (qIndex np op.r1 op.t1) det s.mix).1 else (measureJointNorm (qIndex np op.r1 op.t1) det s.mix).1) ∧
+                (Mix.measure (qIndex np op.r1 op.t1) det s.mix).1 else (Mix.measure (qIndex np op.r1 op.t1) det s.mix).1) ∧
               MixNonneg (if o = true then Mix.mapTab (fun t => t.map gq.act)
-                (measureJointNorm (qIndex np op.r1 op.t1) det s.mix).1 else (measureJointNorm (qIndex np op.r1 op.t1) det s.mix).1) := by
+                (Mix.measure (qIndex np op.r1 op.t1) det s.mix).1 else (Mix.measure (qIndex np op.r1 op.t1) det s.mix).1) ∧
+              (if o = true then Mix.mapTab (fun t => t.map gq.act)
+                (Mix.measure (qIndex np op.r1 op.t1) det s.mix).1 else (Mix.measure (qIndex np op.r1 op.t1) det s.mix).1) ≠ [] := by
             intro ρ2 h2
             cases o with
             | false =>
               simp only [Bool.false_eq_true, if_false] at h2 ⊢
               injection h2 with h2; subst h2
-              exact ⟨hn', hc, hgm, hnnJ⟩
+              exact ⟨hn', hc, hgm, hnnJ, hneJ⟩
             | true =>
               simp only [if_true] at h2 ⊢
               obtain ⟨e, hr⟩ := applyUnitary_toC n ρm ⟨1, getOneQubitGate n (qIndex np op.r2 op.t2) g⟩ hn'
                 (oneQubitGate_n n _ hq2 g hgn) hh ρ2 h2
-              refine ⟨hr, ?_, ?_, mapTab_nonneg _ _ hnnJ⟩
+              refine ⟨hr, ?_, ?_, mapTab_nonneg _ _ hnnJ, mapTab_ne_nil _ _ hneJ⟩
               · rw [e]
                 show _ • conjH (toC n (getOneQubitGate n (qIndex np op.r2 op.t2) g)) _ = _
                 rw [hU, hc]
@@ -249,25 +170,34 @@ theorem measGateJ_lockstep (np n : Nat) (det : Bool) (op : COp) (hk : MeasAny op
           | ok ρ2 =>
             rw [h2] at hm
             simp only at hm
-            obtain ⟨n2, c2, g2, nn2⟩ := step2 ρ2 h2
+            obtain ⟨n2, c2, g2, nn2, ne2⟩ := step2 ρ2 h2
             cases reset with
             | false =>
               simp only [Bool.false_eq_true, if_false, Except.map] at hm ⊢
               injection hm with hm; subst hm
-              exact ⟨⟨⟨ρ2, rfl, n2, c2⟩, g2, by show setRec d.creg op.c _ = setRec s.creg op.c _; rw [hcr]⟩, nn2⟩
+              exact ⟨⟨⟨ρ2, rfl, n2, c2⟩, g2, by show setRec d.creg op.c _ = setRec s.creg op.c _; rw [hcr]⟩, nn2, ne2⟩
             | true =>
               simp only [if_true] at hm ⊢
               have hne' := hner rfl
               have f2 : Fixed n (qIndex np op.r1 op.t1) o (if o = true then Mix.mapTab (fun t => t.map gq.act)
-                  (measureJointNorm (qIndex np op.r1 op.t1) det s.mix).1
-                  else (measureJointNorm (qIndex np op.r1 op.t1) det s.mix).1) := by
-                cases o with
-                | false => simpa using hfxJ
-                | true =>
-                  simp only [if_true]
-                  obtain ⟨hne1, hgx⟩ := hne'
-                  subst hgx
-                  exact mapX_fixed n _ _ hq2 hne1 true _ hgm.mixN hfxJ
+                  (Mix.measure (qIndex np op.r1 op.t1) det s.mix).1
+                  else (Mix.measure (qIndex np op.r1 op.t1) det s.mix).1) ∨
+                  ZeroW (if o = true then Mix.mapTab (fun t => t.map gq.act)
+                  (Mix.measure (qIndex np op.r1 op.t1) det s.mix).1
+                  else (Mix.measure (qIndex np op.r1 op.t1) det s.mix).1) := by
+                rcases hfz with hfx | hzw
+                · left
+                  cases o with
+                  | false => simpa using hfx
+                  | true =>
+                    simp only [if_true]
+                    obtain ⟨hne1, hgx⟩ := hne'
+                    subst hgx
+                    exact mapX_fixed n _ _ hq2 hne1 true _ hgm.mixN hfx
+                · right
+                  cases o with
+                  | false => simpa using hzw
+                  | true => simp only [if_true]; exact zeroW_mapTab _ _ hzw
               have hh2 : (toC n ρ2)ᴴ = toC n ρ2 := by rw [c2]; exact mixRho_herm n _ g2
               cases h3 : applyChannel ρ2 (resetKraus n (qIndex np op.r1 op.t1)) with
               | error e => rw [h3] at hm; cases hm
@@ -278,15 +208,18 @@ theorem measGateJ_lockstep (np n : Nat) (det : Bool) (op : COp) (hk : MeasAny op
                 obtain ⟨e3, n3⟩ := dmReset_toC n _ hq1 ρ2 r n2 hh2 h3
                 refine ⟨⟨⟨r, rfl, n3, ?_⟩, reset_good n _ hq1 det _ g2,
                   by show setRec d.creg op.c _ = setRec s.creg op.c _; rw [hcr]⟩,
-                  mapTab_nonneg (fun t => t.resetZ (qIndex np op.r1 op.t1) false det) _ nn2⟩
-                rw [e3, c2, resetH_of_fixed n _ hq1 o _ (fixed_mixRho n _ o _ f2), mixRho_reset n _ hq1 det o _ g2 f2]
+                  mapTab_nonneg (fun t => t.resetZ (qIndex np op.r1 op.t1) false det) _ nn2,
+                  mapTab_ne_nil (fun t => t.resetZ (qIndex np op.r1 op.t1) false det) _ ne2⟩
+                rcases f2 with f2 | f2
+                · rw [e3, c2, resetH_of_fixed n _ hq1 o _ (fixed_mixRho n _ o _ f2), mixRho_reset n _ hq1 det o _ g2 f2]
+                · rw [e3, c2, mixRho_zeroW n _ f2, resetH_zero, mixRho_zeroW n _ (zeroW_mapTab _ _ f2)]
   have hX : ∀ q2, q2 < n → toC n (getOneQubitGate n q2 Mat.sigmax) = gateMat n (.X q2) := by
     intro q2 hq2; rw [toC_oneQubitGate n q2 hq2, toC2_sigmax]; rfl
   have hZ : ∀ q2, q2 < n → toC n (getOneQubitGate n q2 Mat.sigmaz) = gateMat n (.Z q2) := by
     intro q2 hq2; rw [toC_oneQubitGate n q2 hq2, toC2_sigmaz]; rfl
   rcases hk with hk | hk | hk | hk <;> simp only [hk] at hs hd
   · -- MeasurementZ
-    unfold stabMeasZJ at hs
+    unfold stabMeasZ at hs
     rw [if_pos hq1] at hs
     injection hs with hs; subst hs
     cases hp : projectorsZ n (qIndex np op.r1 op.t1) with
@@ -305,14 +238,63 @@ theorem measGateJ_lockstep (np n : Nat) (det : Bool) (op : COp) (hk : MeasAny op
         cases r with
         | none => exact absurd rfl hsome
         | some ρ' =>
-          obtain ⟨ho, hc, hn', hgm⟩ := meas p0 p1 hp ρ' o ha
-          exact ⟨⟨⟨ρ', rfl, hn', hc⟩, hgm, by show setRec d.creg op.c _ = setRec s.creg op.c _; rw [hcr, ho]⟩, hnnJ⟩
+          obtain ⟨ho, hc, hn', _⟩ := meas p0 p1 hp ρ' o ha
+          exact ⟨⟨⟨ρ', rfl, hn', hc⟩, hgm,
+            by show setRec d.creg op.c _ = setRec s.creg op.c _; rw [hcr, hhead, ho]⟩, hnnJ, hneJ⟩
   · have hq2 := hw.2.1 (Or.inr (by simp [hk, Kind.isClassicalCtrl]))
     exact classical (.X _) Mat.sigmax false rfl hq2 (fun h => by cases h) (Or.inl rfl) (hX _ hq2) hs hd
   · have hq2 := hw.2.1 (Or.inr (by simp [hk, Kind.isClassicalCtrl]))
     exact classical (.Z _) Mat.sigmaz false rfl hq2 (fun h => by cases h) (Or.inr rfl) (hZ _ hq2) hs hd
   · have hq2 := hw.2.1 (Or.inr (by simp [hk, Kind.isClassicalCtrl]))
     exact classical (.X _) Mat.sigmax true rfl hq2 (fun _ => ⟨hne hk, rfl⟩) (Or.inl rfl) (hX _ hq2) hs hd
+
+theorem applyNoise_ne (nm : NoiseM) (q : Nat) (m m' : Mixture) (hm : m ≠ []) (h : Mix.applyNoise nm q m = .ok m') : m' ≠ [] := by
+  cases nm with
+  | none => simp [Mix.applyNoise] at h; subst h; exact hm
+  | depol p a =>
+    simp only [Mix.applyNoise] at h
+    rw [Mix.depolarize_unfold] at h
+    split at h; · cases h
+    split at h; · cases h
+    rename_i hne
+    injection h with h; subst h
+    have hne' : (m.flatMap fun x => Mix.depolBranch p q x.1 x.2) ≠ [] := by
+      intro e; rw [e] at hne; simp at hne
+    exact reduce_ne_nil _ _ (List.length_pos_of_ne_nil hne') hne'
+  | pauli k a =>
+    simp only [Mix.applyNoise] at h
+    cases k <;> simp only [Mix.pauliError] at h
+    · injection h with h; subst h; exact hm
+    · injection h with h; subst h; exact mapTab_ne_nil _ m hm
+    · injection h with h; subst h; exact mapTab_ne_nil _ m hm
+    · injection h with h; subst h; exact mapTab_ne_nil _ m hm
+    · cases h
+  | loss r a =>
+    simp [Mix.applyNoise] at h; subst h
+    intro e
+    exact hm (List.map_eq_nil_iff.1 e)
+  | replace => simp [Mix.applyNoise] at h
+  | other => simp [Mix.applyNoise] at h
+
+theorem stabGate_ne_mfree (np n : Nat) (det : Bool) (op : COp) (hf : MFree op) (s s1 : StabSt) (hm : s.mix ≠ [])
+    (h : stabGate np n det op s = .ok s1) : s1.mix ≠ [] := by
+  unfold stabGate at h
+  simp only at h
+  have m1 : ∀ (q : Nat) (f : Tab → Tab), stabMap1 n q f s = .ok s1 → s1.mix ≠ [] := by
+    intro q f h; unfold stabMap1 at h; split at h
+    · injection h with h; subst h; exact mapTab_ne_nil f _ hm
+    · cases h
+  have m2 : ∀ (q1 q2 : Nat) (f : Tab → Tab), stabMap2 n q1 q2 f s = .ok s1 → s1.mix ≠ [] := by
+    intro q1 q2 f h; unfold stabMap2 at h; split at h
+    · injection h with h; subst h; exact mapTab_ne_nil f _ hm
+    · cases h
+  cases hk : op.kind <;> simp only [hk] at h
+  all_goals first
+    | (injection h with h; subst h; exact hm)
+    | exact m1 _ _ h
+    | exact m2 _ _ _ h
+    | cases h
+    | (rcases hf with hf | hf <;> simp [hk, Kind.isOneQubit, Kind.isCtrlPair] at hf)
 
 /-! ### the compile loop -/
 
@@ -377,34 +359,33 @@ theorem dmGo_none (ns : Bool) (np n : Nat) (det : Bool) (arr : Array COp) : ∀ 
 /-- one action on both sides (repaired stabilizer side) -/
 theorem actJ_lockstep (np n : Nat) (det : Bool) (arr : Array COp) (s s1 : StabSt) (d d1 : DmSt) (a : Act)
     (ha : ActOKJ n np arr a) (hI : InvJ n s d)
-    (hs : stabActJ np n det arr s a = .ok s1) (hd : dmAct np n det arr d a = .ok d1) (hsome : d1.ρ ≠ none) : InvJ n s1 d1 := by
-  obtain ⟨⟨⟨ρ, hρs, hρn, hρ⟩, hg, hcr⟩, hnn⟩ := hI
+    (hs : stabAct np n det arr s a = .ok s1) (hd : dmAct np n det arr d a = .ok d1) (hsome : d1.ρ ≠ none) : InvJ n s1 d1 := by
+  obtain ⟨⟨⟨ρ, hρs, hρn, hρ⟩, hg, hcr⟩, hnn, hnemp⟩ := hI
   have hh : (toC n ρ)ᴴ = toC n ρ := by rw [hρ]; exact mixRho_herm n _ hg
   cases a with
   | gate k =>
-    simp only [stabActJ] at hs
+    simp only [stabAct] at hs
     simp only [dmAct] at hd
     cases hk : arr[k]? with
     | none =>
       rw [getD_none arr k hk] at hs hd
-      simp only [stabGateJ, stabGate] at hs
+      simp only [stabGate] at hs
       simp only [dmGate, hρs] at hd
       injection hs with hs; subst hs
       injection hd with hd; subst hd
-      exact ⟨⟨⟨ρ, hρs, hρn, hρ⟩, hg, hcr⟩, hnn⟩
+      exact ⟨⟨⟨ρ, hρs, hρn, hρ⟩, hg, hcr⟩, hnn, hnemp⟩
     | some op =>
       rw [getD_some arr k op hk] at hs hd
       obtain ⟨hw, hkind⟩ := ha op hk
       rcases hkind with hf | hm
-      · rw [stabGateJ_mfree np n det op hf] at hs
-        obtain ⟨e1, _⟩ := stabGate_mixRho np n det op hf hw.2.2 s s1 hg.mixN hs
+      · obtain ⟨e1, _⟩ := stabGate_mixRho np n det op hf hw.2.2 s s1 hg.mixN hs
         obtain ⟨ρ', hρ', e2, n2⟩ := dmGate_toC np n det op hf hw d d1 ρ hρs hρn hh hd
         exact ⟨⟨⟨ρ', hρ', n2, by rw [e2, hρ, e1]⟩,
           mixGood_of n _ (stabGate_ok np n det op hw.2.2 s s1 hg.ok hs)
             (stabGate_real np n det op hf s s1 (fun x hx => (hg x hx).2.2) hs),
           by rw [dmGate_creg np n det op hf d d1 hd, stabGate_creg np n det op hf s s1 hs, hcr]⟩,
-          stabGate_nonneg np n det op s s1 hnn hs⟩
-      · exact measGateJ_lockstep np n det op hm.1 hw hm.2 s s1 d d1 ⟨⟨⟨ρ, hρs, hρn, hρ⟩, hg, hcr⟩, hnn⟩ hs hd hsome
+          stabGate_nonneg np n det op s s1 hnn hs, stabGate_ne_mfree np n det op hf s s1 hnemp hs⟩
+      · exact measGateJ_lockstep np n det op hm.1 hw hm.2 s s1 d d1 ⟨⟨⟨ρ, hρs, hρn, hρ⟩, hg, hcr⟩, hnn, hnemp⟩ hs hd hsome
   | noise k side q nm =>
     have hs' : stabAct np n det arr s (.noise k side q nm) = .ok s1 := hs
     simp only [stabAct] at hs'
@@ -422,20 +403,20 @@ theorem actJ_lockstep (np n : Nat) (det : Bool) (arr : Array COp) (s s1 : StabSt
         exact ⟨⟨⟨r, rfl, n2, by rw [e2, hρ, e1]⟩,
           mixGood_of n _ (applyNoise_ok n q ha.1 nm s.mix m' hg.ok hn)
             (applyNoise_real nm q s.mix m' (fun x hx => (hg x hx).2.2) hn), hcr⟩,
-          applyNoise_nonneg nm (paramPhys_loss nm ha.2) q s.mix m' hnn hn⟩
+          applyNoise_nonneg nm (paramPhys_loss nm ha.2) q s.mix m' hnn hn, applyNoise_ne nm q s.mix m' hnemp hn⟩
   | replace k =>
     have hs' : stabAct np n det arr s (.replace k) = .ok s1 := hs
     simp [stabAct] at hs'
 
 theorem runJ_lockstep (np n : Nat) (det : Bool) (arr : Array COp) :
     ∀ (acts : List Act) (s s' : StabSt) (d d' : DmSt), (∀ a ∈ acts, ActOKJ n np arr a) → InvJ n s d →
-      runStabActsJ np n det arr acts s = .ok s' → runDmActs np n det arr acts d = .ok d' → d'.ρ ≠ none → InvJ n s' d'
+      runStabActs np n det arr acts s = .ok s' → runDmActs np n det arr acts d = .ok d' → d'.ρ ≠ none → InvJ n s' d'
   | [], s, s', d, d', _, hI, hs, hd, _ => by
-    simp [runStabActsJ] at hs; simp [runDmActs] at hd; subst hs; subst hd; exact hI
+    simp [runStabActs] at hs; simp [runDmActs] at hd; subst hs; subst hd; exact hI
   | a :: as, s, s', d, d', hw, hI, hs, hd, hsome => by
-    simp only [runStabActsJ] at hs
+    simp only [runStabActs] at hs
     simp only [runDmActs] at hd
-    cases ha : stabActJ np n det arr s a with
+    cases ha : stabAct np n det arr s a with
     | error e => rw [ha] at hs; cases hs
     | ok s1 =>
       rw [ha] at hs
@@ -450,11 +431,11 @@ theorem runJ_lockstep (np n : Nat) (det : Bool) (arr : Array COp) :
 theorem goJ_lockstep (ns : Bool) (np n : Nat) (det : Bool) (arr : Array COp)
     (harr : ∀ (j : Nat) (op : COp), arr[j]? = some op → OpOKJ n np op) :
     ∀ (ops : List COp) (k : Nat) (s s' : StabSt) (d d' : DmSt), (∀ op ∈ ops, OpOKJ n np op) → InvJ n s d →
-      stabGoJ ns np n det arr ops k s = .ok s' → dmGo ns np n det arr ops k d = .ok d' → d'.ρ ≠ none → InvJ n s' d'
+      stabGo ns np n det arr ops k s = .ok s' → dmGo ns np n det arr ops k d = .ok d' → d'.ρ ≠ none → InvJ n s' d'
   | [], k, s, s', d, d', _, hI, hs, hd, _ => by
-    simp [stabGoJ] at hs; simp [dmGo] at hd; subst hs; subst hd; exact hI
+    simp [stabGo] at hs; simp [dmGo] at hd; subst hs; subst hd; exact hI
   | op :: rest, k, s, s', d, d', hw, hI, hs, hd, hsome => by
-    simp only [stabGoJ] at hs
+    simp only [stabGo] at hs
     simp only [dmGo] at hd
     split at hs
     · cases hs
@@ -468,7 +449,7 @@ theorem goJ_lockstep (ns : Bool) (np n : Nat) (det : Bool) (arr : Array COp)
       | error e => rw [hp] at hs; cases hs
       | ok acts =>
         rw [hp] at hs hd; simp only at hs hd
-        cases hr : runStabActsJ np n det arr acts s with
+        cases hr : runStabActs np n det arr acts s with
         | error e => rw [hr] at hs; cases hs
         | ok s1 =>
           rw [hr] at hs; simp only at hs
@@ -501,13 +482,13 @@ theorem goJ_lockstep (ns : Bool) (np n : Nat) (det : Bool) (arr : Array COp)
     matrix `ρ` (not NaN), then `ρ = Σ_k w_k ρ(T_k)` of `s.mix`, entry by entry, and the classical registers agree.  All n. -/
 theorem dm_equals_mixture_repaired (ns : Bool) (ne np nc : Nat) (det : Bool) (ops : List COp)
     (hw : ∀ op ∈ ops, OpOKJ (ne + np) np op) (s : StabSt) (d : DmSt) (ρ : Mat)
-    (hs : compileStabJ ns ne np nc det ops = .ok s) (hd : compileDM ns ne np nc det ops = .ok d) (hρ : d.ρ = some ρ) :
+    (hs : compileStab ns ne np nc det ops = .ok s) (hd : compileDM ns ne np nc det ops = .ok d) (hρ : d.ρ = some ρ) :
     Mat.EqOn ρ (mixtureDensity (ne + np) s.mix) ∧ d.creg = s.creg := by
-  unfold compileStabJ at hs
+  unfold compileStab at hs
   unfold compileDM at hd
   have hI0 : InvJ (ne + np) { mix := [(1, (Tab.ket0 (ne + np)).norm)], creg := List.replicate nc 0 }
       { ρ := some (⟨pow2 (ne + np), fun i j => if i = 0 ∧ j = 0 then 1 else 0⟩ : Mat).norm, creg := List.replicate nc 0 } := by
-    refine ⟨⟨⟨_, rfl, rfl, ?_⟩, ?_, rfl⟩, ?_⟩
+    refine ⟨⟨⟨_, rfl, rfl, ?_⟩, ?_, rfl⟩, ?_, by simp⟩
     · rw [toC_rho0, mixRho_init]
     · intro x hx
       simp only [List.mem_singleton] at hx
@@ -517,7 +498,7 @@ theorem dm_equals_mixture_repaired (ns : Bool) (ne np nc : Nat) (det : Bool) (op
       simp only [List.mem_singleton] at hx
       subst hx
       norm_num
-  obtain ⟨⟨⟨ρ', hρ', hn, e⟩, hg, hcr⟩, _⟩ := goJ_lockstep ns np (ne + np) det ops.toArray (by
+  obtain ⟨⟨⟨ρ', hρ', hn, e⟩, hg, hcr⟩, _, _⟩ := goJ_lockstep ns np (ne + np) det ops.toArray (by
       intro j op hop
       apply hw
       have : op ∈ ops.toArray := Array.mem_of_getElem? hop
